@@ -135,3 +135,76 @@ def ls_coefs(C, y, Xs):
     if len(Xs):
         b[Xs] = np.linalg.solve(C[np.ix_(Xs, Xs)], C[y, Xs])
     return b
+
+
+# ---- RNG vocabulary, concrete meaning: generator objects are threaded through explicitly
+def rng_state(seed):
+    import numpy as np
+    return np.random.default_rng(seed)
+
+
+def rng_uniform(g, lo, hi, shape=None):
+    return g.uniform(lo, hi, size=shape), g
+
+
+def rng_integers(g, lo, hi, shape=None):
+    return g.integers(lo, hi, shape), g
+
+
+def rng_permutation(g, n):
+    return g.permutation(n), g
+
+
+_CLAUSE_STATE = [None]
+
+
+class _GlobalAt:
+    """numpy's global generator rewound to the state it had when the current clause started"""
+    def draw(self, f):
+        import numpy as np
+        cur = np.random.get_state()
+        np.random.set_state(self.state)
+        try:
+            out = f()
+            self.state = np.random.get_state()
+        finally:
+            np.random.set_state(cur)
+        return out
+
+
+def global_state():
+    g = _GlobalAt()
+    g.state = _CLAUSE_STATE[0]
+    return g
+
+
+def global_seeded(seed):
+    import numpy as np
+    g = _GlobalAt()
+    cur = np.random.get_state()
+    np.random.seed(seed)
+    g.state = np.random.get_state()
+    np.random.set_state(cur)
+    return g
+
+
+def g_normal(g, loc, scale, n=None):
+    import numpy as np
+    return g.draw(lambda: np.random.normal(loc, scale, n)), g
+
+
+def g_laplace(g, loc, scale, n=None):
+    import numpy as np
+    return g.draw(lambda: np.random.laplace(loc, scale, n)), g
+
+
+def g_uniform(g, lo, hi, n=None):
+    import numpy as np
+    return g.draw(lambda: np.random.uniform(lo, hi, n)), g
+
+
+def independent(a, b):
+    import numpy as np
+    if isinstance(a, np.ndarray) and isinstance(b, np.ndarray):
+        return a is not b and not np.shares_memory(a, b)
+    return True
